@@ -242,6 +242,14 @@ def run_item(item):
         n_sn = T.groupby("sn_id")["p_id"].transform("count").to_numpy() if "sn_id" in T.columns else 1
         zve = np.maximum(col("_zu_verst_eink_mit_kinderfreib_y_sn"), col("_zu_verst_eink_ohne_kinderfreib_y_sn") if "_zu_verst_eink_ohne_kinderfreib_y_sn" in T.columns else 0)
         cap("eink_st_y_sn<=top rate x taxable income", col("eink_st_y_sn"), top * np.maximum(zve, 0) + 1.0)
+    # solidarity surcharge <= nominal rate x (income tax with child allowance + capital income tax): the transition zone
+    # only ever lowers it (the schedule itself is C18's subject; here the default target is capped)
+    so = _get(params, "soli_st", "soli_st")
+    if so is not None and "soli_st_y_sn" in T.columns and "eink_st_mit_kinderfreib_y_sn" in T.columns:
+        rate = float(np.asarray(so["rates"])[0, -1])
+        ab = col("abgelt_st_y_sn")
+        cap("soli_st_y_sn<=nominal rate x (income tax + capital income tax)", col("soli_st_y_sn"),
+            rate * (col("eink_st_mit_kinderfreib_y_sn") + (ab if ab is not None else 0.0)) + 0.01)
     res["observations"] = []
     res["sample"] = dict(date=item["date"], corner=corner, population=popgen.describe(df))
     return res
